@@ -7,12 +7,15 @@ mod util;
 mod bringup;
 mod c03;
 mod c04;
+mod c06;
 mod c09;
 mod c10;
 mod c11;
+mod c12;
 mod corpus;
 mod feed;
 mod c14;
+mod c15;
 mod dec;
 
 pub fn verif_dir() -> String {
@@ -65,10 +68,13 @@ fn main() {
     let r = std::panic::catch_unwind(|| match id.as_str() {
         "C03" => c03::main(&args),
         "C04" => c04::main(&args),
+        "C06" => c06::main(&args),
         "C09" => c09::main(&args),
         "C10" => c10::main(&args),
         "C11" => c11::main(&args),
+        "C12" => c12::main(&args),
         "C14" => c14::main(&args),
+        "C15" => c15::main(&args),
         "bringup" => bringup::main(&args),
         _ => {
             eprintln!("unknown check {id}");
